@@ -509,6 +509,12 @@ class C06(DiffProperty):
         cases.append("tpl " + " ".join("px %d" % k for k in allk) + " pi 18 1 px 18 pt 18 px 17")
         cases.append("tpl " + " ".join("pb %s" % hex(i) for i in EDGE_IDS if i < 2**32))
         cases.append("tpl " + " ".join("pv %d ps %d" % (i, i) for i in list(range(0x3e, 0x7d)) + [-3, -1, 0, 1, 0x80, 0x140, 0x160, 0x900, 0x961]))
+        # the id arithmetic of the header macros on WIDE ids (a range test that looks at the low byte only is right for 0..255)
+        for lo in range(0x100, 0x1100, 0x400):
+            cases.append("tpl " + " ".join("pv %d ps %d" % (i, i) for i in range(lo, lo + 0x400)))
+        # a user type whose generic id has any low byte: n other registrations first, then the type and its span<const T>
+        for n in list(range(0, 300, 5)) + [0x5e, 0x5f, 0x60, 0x61, 0x79, 0x7a, 0x7b, 0x15f, 0x160, 0x17a, 0x17b]:
+            cases.append("tpl gaN %d 8 pi 17 1 pi 28 1 pt 28 pi 28 0 pi 21 1 pi 32 1 pt 32 pi 17 0" % n)
         for i in range(60 if tier == "quick" else 4000):
             cases.append(self.tpl_history(rng, rng.choice([4, 8, 12, 20, 30])))
         return cases
